@@ -216,6 +216,10 @@ class Interp:
             return a - b * floor_div(a, b)
         if isinstance(op, ast.LShift) and isinstance(b, int) and b >= 0:
             return a * (2 ** b)
+        if isinstance(op, ast.LShift) and is_z3(b):
+            if self.ctx.branch(b < 0):
+                raise RaiseSignal(ValueError, n)
+            return a * self.engine.pow2(b)   # pow2 is uninterpreted: contracts supply the unfoldings they need
         if isinstance(op, ast.RShift) and isinstance(b, int) and b >= 0:
             return floor_div(a, 2 ** b)
         if isinstance(op, ast.BitAnd):
@@ -235,6 +239,15 @@ class Interp:
                 return a + (1 - bit) * b
             if isinstance(b, int) and b == 0:
                 return a
+            if is_z3(a) and is_z3(b):
+                # a | b == a + b whenever the operands occupy disjoint bit ranges (true for all Python ints, negative `hi` included);
+                # outside those cases the result is left uninterpreted
+                out = self.engine.bitor(a, b)
+                for k in (8, 5, 1):
+                    for hi, lo in ((a, b), (b, a)):
+                        out = z3.If(z3.And(hi % (2 ** k) == 0, lo >= 0, lo < 2 ** k), hi + lo, out)
+                out = z3.If(b == 0, a, z3.If(a == 0, b, out))
+                return out
         if isinstance(op, ast.Pow) and isinstance(a, int) and a == 2 and is_z3(b):
             return self.engine.pow2(b)
         raise Unsupported(f"symbolic binop {type(op).__name__}")
